@@ -49,6 +49,12 @@ kho = N('scxml', 0, [N('state', 6, [N('hd', 10, trans=[T(102, None, None, [7])])
                                                    N('initial', 12, trans=[T(104, None, None, [8])]),
                                                    N('state', 8, trans=[T(504, b'e', None, [10])])])])])
 
+# K-HT: a transition from s4 to the deep history s2 of its enclosing state s1 (default s4): Appendix D computes the
+# domain s3 from the effective target and re-enters s3 without exiting it; the engines exit s3 as well
+kht = N('scxml', 0, [N('state', 1, [N('hd', 2, trans=[T(102, None, None, [4])]),
+                                    N('state', 3, [N('state', 4, trans=[T(101, b'e', None, [2])]), N('state', 5)],
+                                      onentry=[[('raise', 110, b'n')]], onexit=[[('raise', 111, b'x')]])])])
+
 CORPUS = [
     ('d1-exit-interval', d1, [b'go', b'e'], 'null'),
     ('d2-targetless', d2, [b'e'], 'null'),
@@ -60,4 +66,5 @@ CORPUS = [
     ('d3-sticky-bits', d3, [b'ee', b'back', b'ee', b'back', b'gg'], 'null'),
     ('fd5-parallel-done', fd5, [], 'null'),
     ('kho-history-overlap', kho, [b'e'], 'null'),
+    ('kht-history-target-domain', kht, [b'e'], 'null'),
 ]
